@@ -621,7 +621,31 @@ def load_modify_store(ctx, fns, rule="R-ATOM.lms"):
 
 
 # ---------------------------------------------------------------- R-COMMIT
-def commit_before_check(ctx, fn, fields_rx=None, rule="R-COMMIT"):
+def _callee_refuses_on(fx, cc, fn, fw):
+    """crate-local callee that compares the parameter receiving a value from `fw` and can only fail on one outcome"""
+    from rules.pair import err_blocks
+    if fx is None or not fx.has(cc["f"]):
+        return False
+    pos = [i for i, a in enumerate(cc["a"]) if op_local(a) is not None and op_local(a) in fw]
+    if not pos:
+        return False
+    hf = Fn(fx.raw(cc["f"]))
+    heb = err_blocks(hf)
+    for i in pos:
+        pw = hf.forward_locals([i + 1]) | {i + 1}
+        for loc, st in hf.iter_locs():
+            if st[0] == "a" and st[2][0] == "bin" and st[2][1] in ("Lt", "Le", "Gt", "Ge", "Eq", "Ne") and len(st[1]) == 1 and \
+                    (op_local(st[2][2]) in pw or op_local(st[2][3]) in pw):
+                for sb in hf.blocks():
+                    t = hf.term(sb)
+                    if t[0] == "sw" and op_local(t[1]) == st[1][0]:
+                        succs = hf.succ(sb)
+                        if any(x in heb for x in succs) and any(x not in heb for x in succs):
+                            return True
+    return False
+
+
+def commit_before_check(ctx, fn, fields_rx=None, rule="R-COMMIT", fx=None):
     """an atomic read-modify-write (fetch_add / fetch_sub / swap) whose returned value then decides a refusal (an edge
     that can only end in Err / None) has already changed the shared state when the refusal is taken: unless the refusing
     path undoes it on the same atomic, a refused request still consumes the resource"""
@@ -637,7 +661,13 @@ def commit_before_check(ctx, fn, fields_rx=None, rule="R-COMMIT"):
     n = 0
     for b, op, fld, c in sites:
         d = c["d"][0]
-        fw = fn.forward_locals([d], call_through=lambda cc: not cc.get("loc"))
+        # the decision may be delegated to a crate-local helper that turns the value into a Result / Option / bool
+        # (a helper that merely receives the value and fails for other reasons - an allocation - does not count)
+        plain = fn.forward_locals([d], call_through=lambda cc: not cc.get("loc")) | {d}
+
+        def _thru(cc):
+            return not cc.get("loc") or _callee_refuses_on(fx, cc, fn, plain)
+        fw = fn.forward_locals([d], call_through=_thru)
         decides = None
         for sb in fn.blocks():
             t = fn.term(sb)
@@ -646,7 +676,7 @@ def commit_before_check(ctx, fn, fields_rx=None, rule="R-COMMIT"):
             l = op_local(t[1])
             if l is None:
                 continue
-            if l not in fw and not (fn.backslice([l], call_through=lambda cc: not cc.get("loc"), max_nodes=60)[0] & (fw | {d})):
+            if l not in fw and not (fn.backslice([l], call_through=_thru, max_nodes=60)[0] & (fw | {d})):
                 continue
             if not fn.reachable_from([c["t"]] if c.get("t") is not None else fn.succ(b)).__contains__(sb):
                 continue
